@@ -49,6 +49,8 @@ def main(argv):
                         caught[chk]['clause'] = r.get('failure', {}).get('clause', r.get('broken'))
         finally:
             sh(['git', '-C', '/repo', 'checkout', '--', '.'])
+        # the generated Lean slices were re-created from the patched tree: put back what the clean tree gives
+        sh(['/venv/bin/python', '-c', 'from harness import translate; translate.generate()'], cwd=VERIF)
         meta['checks'] = caught
         meta['caught'] = any(v['exit'] == 1 for v in caught.values())
         (d / 'meta.json').write_text(json.dumps(meta, indent=1) + '\n')
